@@ -4,6 +4,6 @@
 cd /verif
 for d in seeded/*/; do
   n=$(basename $d); id=${n%%-*}
-  out=$(./seedtest.sh $d/patch.diff $id 2>&1)
+  out=$(./seedtest.sh /verif/$d/patch.diff $id 2>&1)
   if echo "$out" | grep -q "VIOLATION"; then echo "CAUGHT $n: $(echo "$out" | grep -o 'class=[^ ]*' | head -1)"; else echo "MISSED $n: $(echo "$out" | tail -1)"; fi
 done
